@@ -44,6 +44,12 @@ type Hooks struct {
 	// non-constant haystack is modelled; prev is the live result of an earlier
 	// execution of the same call in this state (nil if none).
 	OnSearch func(e *Engine, st *State, fr *Frame, call *ssa.Call, prev *Hit, cur Hit)
+	// OnScan fires for every other library call that receives a non-constant string
+	// (it may look at all of it).
+	OnScan func(e *Engine, st *State, fr *Frame, call *ssa.Call, s StrV)
+	// Templates supplies linear forms L (read: L ≤ 0) over a freshly joined state
+	// that should survive the join whenever every joined side entails them.
+	Templates func(e *Engine, joined *State, fr *Frame) []Lin
 	// OnRead fires when a byte s[idx] of a non-constant string is read.
 	OnRead func(e *Engine, st *State, fr *Frame, at ssa.Instruction, s StrV, idx Lin)
 }
@@ -63,6 +69,10 @@ type Config struct {
 	Hooks     Hooks
 	Trace     bool
 	Peel      bool // peel the first iteration of loops (functions ≤ 60 blocks)
+	// GhostDefault gives the value a ghost cell (object key "GHOST:…") stands for
+	// when a path never wrote it; joins complete missing cells with it.
+	GhostDefault func(obj, field string) (AVal, bool)
+	ResultCap    int // outcomes of an inlined callee kept apart before coarse merging (default K)
 }
 
 type Frame struct {
@@ -78,6 +88,7 @@ type Frame struct {
 func (fr *Frame) Fn() *ssa.Function { return fr.fn }
 func (fr *Frame) Depth() int        { return fr.depth }
 func (fr *Frame) ID() int           { return fr.id }
+func (fr *Frame) Caller() *Frame    { return fr.caller }
 
 // Logging reports whether obligations are being recorded (the final pass).
 func (e *Engine) Logging() bool { return e.logging }
